@@ -50,6 +50,27 @@ CHECKS = {
               "sum_weights of a measurement by differential testing with redshifts drawn from the edge set."),
         ref="5.C10", technique="Lean 4 theorems over translator-generated digitize/histogram arguments + differential correspondence",
         note="np.digitize / np.histogram semantics modelled (searchsorted rule, last bin closed); float == on identical binary64 values"),
+    "C12": dict(
+        text=("Theorems: stored num_records / sum_weights are those of the records; every record lies within the "
+              "stored radius (maximum of the record distances, attained) of the stored centre; a catalog created from "
+              "N centres pairs patch i with centre i and has ids 0..N-1, a centre without objects makes creation fail "
+              "(missing_centre_rejected; the positional pairing before the repair of F8 is exhibited as a witness); the "
+              "generated check_patch_conistency test raises whenever a centre distance exceeds the radius (incl. radius "
+              "0), and the id-set guard raises on any differing id. Tie: AST pins of load_patches / Metadata.compute / "
+              "Patch.__init__ plus differential runs of all three patch modes, 1 and 3 workers, reopened caches, and "
+              "pairs of misaligned catalogs passed to PatchLinkage.from_catalogs in both orders."),
+        ref="5.C12", technique="Lean 4 theorems over a hand-written metadata/pairing model + generated guard kernel + correspondence",
+        note="vq.vq nearest-centre assignment and treecorr centres are outside the model; angular distances validated with a robust atan2 formula"),
+    "C13": dict(
+        text=("Theorems on the specification that C01/C03/C04 equate with the implementation: linear isometries of R^3 "
+              "preserve chord lengths and angles (Mathlib), counts depend only on (weight product, separation) data, are "
+              "invariant under permutation of the pairs (row order), additive under concatenation (catalog split), "
+              "patch relabelling by any permutation leaves totals unchanged and permutes the leave-one-out samples "
+              "(Equiv.Perm (Fin N)), and scaling the weights of a catalog by c != 0 leaves every normalised term "
+              "unchanged (cross and auto). Correspondence: metamorphic runs of the real pipeline (rotation incl. onto "
+              "poles / across RA=0, row shuffle, centre permutation, weight factors 2^k bitwise and 1e-9..1e6, split)."),
+        ref="5.C13", technique="Lean 4 theorems on the spec + metamorphic differential runs of the real pipeline",
+        note="relies on C01/C03/C04 for spec = implementation; rotations applied in float64 with a 1e-8 guard band"),
     "C17": dict(
         text=("Theorems about a Lean container model (counts B×N×N, weight sums, binning): addition adds counts and is "
               "rejected exactly when binning (edges or closed side) or patch number differ; scalar multiplication "
